@@ -54,3 +54,5 @@ def run(rep, tier):
                                 {'function': ast.unparse(fn)}))
             rep.sample({'subject': f'{what}:{name}', 'paths': stats['loop_paths']})
     rep.floor('walker functions analysed', rep.instances.get('walker functions analysed', 0), 6)
+    from .. import controls
+    controls.walker_controls(rep)
